@@ -572,6 +572,7 @@ fn decision_rows(repo: &Path) -> Vec<(String, String)> {
         }
     }
     c.rows.extend(capacity_rows(repo));
+    c.rows.extend(open_order_rows(repo));
     c.rows.sort();
     c.rows
 }
@@ -642,6 +643,41 @@ fn capacity_rows(repo: &Path) -> Vec<(String, String)> {
         }
     }
     c.rows
+}
+
+// order of the fallible steps and of `service_tag.release_ownership()` in BuilderWithServiceType::open
+// (service/builder/mod.rs): positions of the first occurrence of each marker in the function body
+fn open_order_rows(repo: &Path) -> Vec<(String, String)> {
+    let f = "iceoryx2/src/service/builder/mod.rs";
+    let src = std::fs::read_to_string(repo.join(f)).unwrap_or_else(|e| die(format!("{}: {}", f, e)));
+    let ast = syn::parse_file(&src).unwrap_or_else(|e| die(format!("{}: parse error: {}", f, e)));
+    let mut found = vec![];
+    for item in &ast.items {
+        if let syn::Item::Impl(im) = item {
+            for ii in &im.items {
+                if let syn::ImplItem::Fn(func) = ii {
+                    if func.sig.ident == "open" {
+                        let t = toks(&func.block).replace(' ', "");
+                        let marks = [("create_service_tag", "create_service_tag("), ("open_service_resource", "open_service_resource("),
+                                     ("open_dynamic_config_storage", ".open_dynamic_config_storage("), ("release_tag_ownership", "service_tag.release_ownership()")];
+                        let mut pos: Vec<(usize, &str)> = vec![];
+                        for (name, pat) in marks {
+                            match t.find(pat) {
+                                Some(i) => pos.push((i, name)),
+                                None => die(format!("{}: fn open: `{}` not found", f, pat)),
+                            }
+                        }
+                        pos.sort();
+                        found.push(pos.iter().map(|p| p.1).collect::<Vec<_>>().join(" < "));
+                    }
+                }
+            }
+        }
+    }
+    if found.len() != 1 {
+        die(format!("{}: expected exactly one fn open with the service-tag protocol, found {}", f, found.len()));
+    }
+    vec![("BuilderWithServiceType::open.step_order".into(), found.remove(0))]
 }
 
 fn coq_str(s: &str) -> String {
